@@ -22,6 +22,7 @@ def run(ctx):
     R3 = ctx.rule('C03.R3', 'finalisation happens once: gzip stream finished only while open; response::finalize closes every buffer once')
     R4 = ctx.rule('C03.R4', 'every (string literal, explicit length) pair passed to a buffer / write has the literal\'s length')
     R5 = ctx.rule('C03.R5', 'chunked transfer: size line, data, CRLF in that order; terminating chunk only when completed; header says chunked exactly when chunking')
+    R11 = ctx.rule('C03.R11', 'embedded HTTP server framing: the body bytes of every write are part of what is sent (as they are, or inside a chunk when chunking); a computed Content-Length is the size of the single complete write and only added when none was set; the connection is kept alive only when the length is known or chunking is possible (HTTP/1.1), and chunking is chosen exactly when it is kept alive without a known length; the header block ends with an empty line')
     R6 = ctx.rule('C03.R6', 'every output-side per-request field is reset at the request boundary (or survives by design)')
     R7 = ctx.rule('C03.R7', 'page copy for the cache: the tee buffer is spliced between the (optional) gzip stage and the device, forwards exactly the bytes it holds, and keeps them')
     R10 = ctx.rule('C03.R10', 'both header formatters emit every stored header and every added header line, each as `name: value CRLF`, and nothing is skipped except the Status line that was already written')
@@ -230,6 +231,127 @@ def run(ctx):
     clh = [i for i in fh.calls() if any(fh.N(j)['k'] == 'StringLiteral' and 'Content-Length: ' in fh.N(j).get('s', '') for j in fh.walk(i))]
     g_cl = fh.gate_edges(lambda atom, pol: fh.ref_of(atom) == q.param_by_index(fh, 1) and pol is True)
     ctx.check(len(clh) == 1 and fh.only_through(clh[0], g_cl), R5, 'http::format_output:content-length-only-for-complete-single-write', 'Content-Length announced for a response that is not complete', fh.where)
+
+    # ---------------- R11 HTTP framing decisions and the body
+    inp, compl = q.param_by_index(fh, 0), q.param_by_index(fh, 1)
+    g_ch = lambda pol_: fh.gate_edges(lambda atom, pol: model.strip_targs(fh.ref_of(atom) or '').endswith('http::chunked_te_') and pol is pol_)
+    wraps = [i for i in fh.calls() if q.short_of(fh.bcallee(i) or '') == 'make_chunked_wrapper']
+    ok = len(wraps) >= 1 and all(fh.ref_of(fh.args(i)[0]) == inp and fh.ref_of(fh.args(i)[1]) == compl and fh.only_through(i, g_ch(True)) for i in wraps)
+    # every return hands out: the input itself (not chunking), a wrapper of it, or the packet that received one of the two
+    pk = [d['ref'] for i in fh.all_nodes() if fh.N(i)['k'] == 'DeclStmt' for d in fh.N(i)['decls'] if 'const_buffer' in (fh.types[d['t']] or '')]
+    for r in fh.returns():
+        v = fh.ret_value(r)
+        if v is None:
+            ok = False
+            continue
+        vv = fh.strip(v)
+        while fh.N(vv)['k'] in ('CXXConstructExpr', 'CXXTemporaryObjectExpr', 'CXXBindTemporaryExpr', 'MaterializeTemporaryExpr') and len([c_ for c_ in fh.N(vv)['ch'] if fh.N(c_)['k'] != 'CXXDefaultArgExpr']) == 1:
+            vv = fh.strip([c_ for c_ in fh.N(vv)['ch'] if fh.N(c_)['k'] != 'CXXDefaultArgExpr'][0])
+        v = vv
+        rv = fh.ref_of(v)
+        if rv == inp:
+            ok = ok and fh.only_through(r, g_ch(False))
+        elif any(i in set(fh.walk(v)) for i in wraps):
+            ok = ok and True
+        elif rv in pk:
+            adds = [i for i in fh.calls() if fh.N(i)['k'] == 'CXXOperatorCallExpr' and fh.N(i).get('op') == '+=' and fh.ref_of(fh.N(i)['ch'][1]) == rv]
+            body_adds = [i for i in adds if fh.ref_of(fh.N(i)['ch'][2]) == inp or any(w in set(fh.walk(i)) for w in wraps)]
+            reach = fh.reachable_blocks(cut_blocks=q.blocks_of(fh, body_adds))
+            ok = ok and bool(body_adds) and fh.point_of(r)[0] not in reach
+            plain = [i for i in body_adds if fh.ref_of(fh.N(i)['ch'][2]) == inp]
+            ok = ok and all(fh.only_through(i, g_ch(False)) for i in plain)
+            # the packet starts with the header block
+            init = [v_ for (d_, v_) in fh.defs_of_var(rv) if v_ is not None]
+            ok = ok and len(init) == 1 and any(model.strip_targs(x).endswith('http::response_headers_') for x in fh.subtree_refs(init[0]))
+        else:
+            ok = False
+    ctx.check(ok, R11, 'http::format_output:body-of-every-write-is-sent', 'a write can be answered with a buffer that does not contain the bytes written (as they are, or chunk-framed when chunking)', fh.where)
+    # Content-Length computed = size of this write; stored too
+    S11 = q.symb_with_locals(fh)
+    fn_ = [i for i in fh.calls() if q.short_of(fh.bcallee(i) or fh.callee(i) or '') == 'format_number']
+    clw = [w for w in q.field_writes(fh, 'http::output_content_length_')]
+    g_unknown = fh.gate_edges(lambda atom, pol: fh.N(atom)['k'] == 'BinaryOperator' and fh.N(atom).get('op') in ('==', '!=') and model.strip_targs(fh.ref_of(fh.N(atom)['ch'][0]) or '').endswith('http::output_content_length_') and
+                              fh.const_value(fh.N(atom)['ch'][1]) == -1 and ((fh.N(atom)['op'] == '==') == pol))
+    bc = lambda node: any(q.short_of(fh.bcallee(j) or '') == 'bytes_count' and fh.obj(j) is not None and fh.ref_of(fh.obj(j)) == inp for j in q.expr_calls_deep(fh, node))
+    ok = len(fn_) == 1 and bc(fh.args(fn_[0])[0]) and len(clw) == 1 and bc(fh.N(clw[0])['ch'][1]) and len(clh) == 1 and bool(g_unknown) and fh.only_through(clh[0], g_unknown) and fh.only_through(clw[0], g_unknown) and \
+        fh.point_of(clw[0])[0] == fh.point_of(clh[0])[0]
+    if ok:
+        bufv = fh.ref_of(fh.args(fn_[0])[1])
+        uses = [i for i in fh.calls() if fh.N(i)['k'] == 'CXXOperatorCallExpr' and fh.N(i).get('op') == '+=' and fh.ref_of(fh.N(i)['ch'][2]) == bufv and model.strip_targs(fh.ref_of(fh.N(i)['ch'][1]) or '').endswith('http::response_headers_')]
+        ok = bufv is not None and len(uses) == 1 and q.before(fh, fn_[0], uses[0]) and fh.point_of(uses[0])[0] == fh.point_of(clh[0])[0]
+        # "Content-Length: " <number> CRLF, in this order, in one go
+        blk = fh.point_of(clh[0])[0]
+        seq = sorted([i for i in fh.calls() if fh.N(i)['k'] == 'CXXOperatorCallExpr' and fh.N(i).get('op') == '+=' and model.strip_targs(fh.ref_of(fh.N(i)['ch'][1]) or '').endswith('http::response_headers_') and fh.point_of(i)[0] == blk], key=lambda i: fh.point_of(i)[1])
+        k0 = seq.index(clh[0]) if clh[0] in seq else -1
+        ok = ok and k0 >= 0 and len(seq) >= k0 + 3 and seq[k0 + 1] == uses[0] and fh.N(fh.strip(fh.N(seq[k0 + 2])['ch'][2])).get('s') == '\r\n' and fh.N(fh.strip(fh.N(clh[0])['ch'][2])).get('s') == 'Content-Length: '
+    ctx.check(ok, R11, 'http::format_output:computed-content-length-is-this-writes-size', 'the Content-Length that is added is not the size of the (single, complete) write, or it replaces one the application set', fh.where)
+    # keep-alive / chunking decisions
+    kaw = [w for w in q.field_writes(fh, 'http::keep_alive_')]
+    ka_t = [w for w in kaw if fh.const_value(fh.N(w)['ch'][1]) == 1]
+    ka_f = [w for w in kaw if fh.const_value(fh.N(w)['ch'][1]) == 0]
+
+    def framable(atom, pol):
+        n_ = fh.N(atom)
+        r = model.strip_targs(fh.ref_of(atom) or '')
+        if r.endswith('http::is_http_11_'):
+            return pol is True
+        if n_['k'] == 'BinaryOperator' and n_.get('op') in ('==', '!=') and model.strip_targs(fh.ref_of(n_['ch'][0]) or '').endswith('http::output_content_length_') and fh.const_value(n_['ch'][1]) == -1:
+            return (n_['op'] == '!=') == pol
+        return False
+    g_fr = fh.gate_edges(framable)
+    g_cka = fh.gate_edges(lambda atom, pol: model.strip_targs(fh.ref_of(atom) or '').endswith('http::client_accepts_keep_alive_') and pol is True)
+    g_noerr = fh.gate_edges(lambda atom, pol: model.strip_targs(fh.ref_of(atom) or '').endswith('::error_state_') and pol is False)
+    lit_ = lambda i, txt: any(fh.N(j)['k'] == 'StringLiteral' and txt in fh.N(j).get('s', '') for j in fh.walk(i))
+    kah = [i for i in fh.calls() if lit_(i, 'Connection: keep-alive')]
+    clo = [i for i in fh.calls() if lit_(i, 'Connection: close')]
+    ok = len(ka_t) == 1 and len(ka_f) == 1 and len(kah) == 1 and len(clo) == 1 and bool(g_fr) and bool(g_cka) and bool(g_noerr) and \
+        fh.only_through(ka_t[0], g_fr) and fh.only_through(ka_t[0], g_cka) and fh.only_through(ka_t[0], g_noerr) and \
+        fh.point_of(kah[0])[0] == fh.point_of(ka_t[0])[0] and fh.point_of(clo[0])[0] == fh.point_of(ka_f[0])[0]
+    # chunking exactly when kept alive and the length is unknown; otherwise reset to false on this pass
+    cs_f = [w for w in q.field_writes(fh, 'http::chunked_te_') if fh.const_value(fh.N(w)['ch'][1]) == 0]
+    ok = ok and len(cs) == 1 and fh.only_through(cs[0], g_unknown) and q.reaches(fh, ka_t[0], cs[0]) and not q.reaches(fh, ka_f[0], cs[0]) and len(cs_f) >= 1 and all(q.before(fh, w, cs[0]) for w in cs_f)
+    # if kept alive with unknown length, chunking is chosen (not merely allowed): from keep_alive_=true with length unknown the exit is not reached without it
+    if ok:
+        g_known = fh.gate_edges(lambda atom, pol: fh.N(atom)['k'] == 'BinaryOperator' and fh.N(atom).get('op') in ('==', '!=') and model.strip_targs(fh.ref_of(fh.N(atom)['ch'][0]) or '').endswith('http::output_content_length_') and
+                                fh.const_value(fh.N(atom)['ch'][1]) == -1 and ((fh.N(atom)['op'] == '!=') == pol))
+        reach = fh.reachable_blocks(start=fh.point_of(ka_t[0])[0], cut_blocks=q.blocks_of(fh, cs), cut_edges=g_known)
+        ok = fh.exit not in reach
+    ctx.check(ok, R11, 'http::format_output:keep-alive-only-when-the-body-can-be-delimited:chunked-iff-kept-alive-without-length', 'the connection can be kept alive although the end of the body cannot be recognised, or chunking does not follow the keep-alive / length decision', fh.where)
+    # header block closed by an empty line on every first pass
+    endl = [i for i in fh.calls() if fh.N(i)['k'] == 'CXXOperatorCallExpr' and fh.N(i).get('op') == '+=' and model.strip_targs(fh.ref_of(fh.N(i)['ch'][1]) or '').endswith('http::response_headers_') and
+            fh.N(fh.strip(fh.N(i)['ch'][2]))['k'] == 'StringLiteral' and fh.N(fh.strip(fh.N(i)['ch'][2])).get('s') == '\r\n']
+    last = [i for i in endl if not any(q.reaches(fh, i, j) for j in fh.calls() if j != i and fh.N(j)['k'] == 'CXXOperatorCallExpr' and fh.N(j).get('op') == '+=' and model.strip_targs(fh.ref_of(fh.N(j)['ch'][1]) or '').endswith('http::response_headers_'))]
+    hw = [w for w in q.field_writes(fh, 'http::headers_done_') if fh.const_value(fh.N(w)['ch'][1]) == 1]
+    ok = len(last) == 1 and len(hw) == 1 and q.before(fh, last[0], hw[0])
+    ctx.check(ok, R11, 'http::format_output:header-block-ends-with-an-empty-line', 'nothing guarantees that the last thing added to the header block is the empty line', fh.where)
+    # chunk trailer text and its length are chosen together
+    mcw = P.fn(HTTP + '::make_chunked_wrapper')
+    tv = [d['ref'] for i in mcw.all_nodes() if mcw.N(i)['k'] == 'DeclStmt' for d in mcw.N(i)['decls'] if d.get('init') is not None and mcw.N(mcw.strip(d['init']))['k'] == 'StringLiteral' and
+          (mcw.types[d['t']] or '').rstrip().endswith('*')]
+    ok = True
+    npairs = 0
+    for tvar in tv:
+        for (d_, v_) in mcw.defs_of_var(tvar):
+            if v_ is None or mcw.N(mcw.strip(v_))['k'] != 'StringLiteral':
+                continue
+            L_ = mcw.N(mcw.strip(v_)).get('sl', len(mcw.N(mcw.strip(v_)).get('s', '')))
+            blk = mcw.point_of(d_)[0]
+            lens_ = [(x, mcw.const_value(vv_)) for r_ in set(r for r in mcw.subtree_refs(mcw.body) if r.startswith('v:') and r != tvar) for (x, vv_) in mcw.defs_of_var(r_) if vv_ is not None and mcw.const_value(vv_) is not None and mcw.point_of(x) and mcw.point_of(x)[0] == blk]
+            npairs += 1
+            ok = ok and any(cv_ == L_ for (_, cv_) in lens_)
+    # (a wrapper that passes literals with their lengths directly is covered by R4; nothing to pair then)
+    ctx.check(ok, R11, 'make_chunked_wrapper:trailer-text-and-length-set-together', 'the chunk trailer is replaced without its length (the terminating chunk is cut off or garbage is sent)', mcw.where)
+    ctx.floor(R11, 5)
+    # raw I/O modes: the header block the application writes is parsed line by line into response_headers; every line is *added*
+    # (a repeated name - Set-Cookie, Link, Vary - must survive), never stored through the replacing setter
+    hp = [f for f in P.fns.values() if f.short == 'add_header' and (f.brecord or '').endswith('cgi_headers_parser') and f.entry is not None]
+    if hp:
+        hp = hp[0]
+        stores = [i for i in hp.calls() if hp.N(i)['k'] == 'CXXMemberCallExpr' and (hp.bcallee(i) or '').startswith('cppcms::impl::response_headers::') and q.short_of(hp.bcallee(i)) in ('add_header', 'set_header')]
+        okh = len(stores) >= 1 and all(q.short_of(hp.bcallee(i)) == 'add_header' for i in stores) and q.always_before_exit(hp, stores)
+        ctx.check(okh, R10, 'cgi_headers_parser:every-parsed-line-is-added', 'a header line written in raw mode is stored through set_header (a repeated name replaces the earlier line) or dropped', hp.loc(stores[0]) if stores else hp.where)
+    else:
+        ctx.check(False, R10, 'cgi_headers_parser:every-parsed-line-is-added', 'cgi_headers_parser::add_header not found in the analysed units', fh.where)
 
     # ---------------- R6
     C01.reset_rule(ctx, P, R6, 'output')
